@@ -2,7 +2,7 @@
    Property theorems only; the model is Bac.Net (no proofs), the proofs live in Bac.NetFacts.
    Local theorems hold for EVERY node state, adapter, and arriving frame of the model.  `Fwd` marks the copies made
    by the forwarding section of process_npdu (netservice.py:607-676), `Tx` every other frame a node emits. *)
-From Bac Require Import Base Net NetFacts NetTerm NetTerm2 NetReply NetOnce NetRoute NetArrive NetLocal NetBcast NetTree NetFlood NetRound NetCert NetLbc NetAnn.
+From Bac Require Import Base Net NetFacts NetTerm NetTerm2 NetReply NetOnce NetRoute NetArrive NetLocal NetBcast NetTree NetFlood NetRound NetCert NetLbc NetAnn NetPark.
 Open Scope N_scope.
 
 (* each router hop lowers the hop count by exactly one, and keeps payload and message type *)
@@ -123,6 +123,23 @@ Theorem C06_pending_released_once : forall n i ai src dst d l n' acts,
   /\ pending_get (pending n') d = None /\ pending_wf (pending n').
 Proof. exact i_am_releases_parked. Qed.
 Print Assumptions C06_pending_released_once.
+
+(* ... and for a burst: a node that knows no path to network dnet is handed several packets for it back to back
+   (unicasts SUni m data, remote broadcasts SBc data).  The first starts the discovery, all are parked.  When the
+   announcement for dnet arrives, the node transmits the relays (if it is a router) and then every parked packet —
+   those parked earlier, then the burst in submission order — each exactly once, to the announcing router, and each
+   WITH the DADR it was submitted with: sub_npdu dnet s is (DStation dnet m | DBcast dnet), hop count 255, no SADR,
+   payload unchanged.  Nothing remains parked for dnet. *)
+Theorem C06_pending_released_once_with_dadr : forall n la dnet s0 subs i ai src dst n'' acts,
+  nth_adapter n (local_idx n) = Some la -> modelled_config n = true ->
+  optN_eqb (Some dnet) (a_net la) = false -> find_path n dnet = None ->
+  dnet < 65536 -> pending_wf (pending n) -> nth_adapter n i = Some ai ->
+  process_npdu (submit_all n dnet (s0 :: subs)) i src dst (i_am [dnet]) = (n'', acts) ->
+  acts = (if is_router n then map (fun j => Tx j LBcast (i_am [dnet])) (other_ports n i) else [])
+         ++ map (fun q => Tx i (LStation src) q) (parked_for n dnet ++ map (sub_npdu dnet) (s0 :: subs))
+  /\ pending_get (pending n'') dnet = None /\ pending_wf (pending n'').
+Proof. exact burst_released_once_with_dadr. Qed.
+Print Assumptions C06_pending_released_once_with_dadr.
 
 (* termination of forwarding, per step and for every destination kind: every copy made has a strictly smaller
    hop count and at most (number of adapters + 1) copies are made *)
@@ -489,6 +506,16 @@ Example C06_deliver_example :
   snd (process_npdu (mkNode [mkAd (Some 4) (Some [2])] true [] [])
                     0 [11] (LStation [2]) (mkNpdu None (Some (1, [1])) 0 None [16; 99; 1]))
   = [Up (ARS 1 [1]) (ALS [2]) [16; 99; 1]].
+Proof. vm_compute. reflexivity. Qed.
+
+(* a station that was told nothing hands down a unicast, a remote broadcast and another unicast for network 9 in
+   one go; the announcement releases the three, in order, each with its DADR *)
+Example C06_burst_example :
+  let n := mkNode [mkAd None None] true [] [] in
+  snd (process_npdu (submit_all n 9 [SUni [7] [16; 99; 1]; SBc [16; 99; 2]; SUni [8] [16; 99; 3]]) 0 [11] (LStation [2]) (i_am [9]))
+  = [Tx 0 (LStation [11]) (mkNpdu (Some (DStation 9 [7])) None 255 None [16; 99; 1]);
+     Tx 0 (LStation [11]) (mkNpdu (Some (DBcast 9)) None 255 None [16; 99; 2]);
+     Tx 0 (LStation [11]) (mkNpdu (Some (DStation 9 [8])) None 255 None [16; 99; 3])].
 Proof. vm_compute. reflexivity. Qed.
 
 (* parked packet released by the announcement *)
